@@ -884,6 +884,26 @@ impl FixtureDatabase {
             Stmt::AnnAssign(ann_assign) => {
                 self.collect_names_from_expr(&ann_assign.target, names);
             }
+            // Names bound under a module-level `try` / `if` are module-level names all the same
+            // (`try: from x import y / except ImportError: y = None`)
+            Stmt::Try(try_stmt) => {
+                let handler_bodies = try_stmt.handlers.iter().map(|handler| {
+                    let rustpython_parser::ast::ExceptHandler::ExceptHandler(h) = handler;
+                    &h.body
+                });
+                for inner in std::iter::once(&try_stmt.body)
+                    .chain(handler_bodies)
+                    .chain([&try_stmt.orelse, &try_stmt.finalbody])
+                    .flatten()
+                {
+                    self.collect_module_level_names(inner, names);
+                }
+            }
+            Stmt::If(if_stmt) => {
+                for inner in if_stmt.body.iter().chain(&if_stmt.orelse) {
+                    self.collect_module_level_names(inner, names);
+                }
+            }
             _ => {}
         }
     }
